@@ -3,7 +3,7 @@
 # property's own check and its neighbours (quick tier), restore /repo. Writes <dir>/caught.txt.
 # OWN_ONLY=1: only the property's own check; CAUGHT=<file name>: write there instead of caught.txt (a regression pass that leaves the full results alone).
 ROOT="$1"
-declare -A REL=( [C01]="C01 C02 C06 C10 C16" [C02]="C02 C01 C10 C14 C15" [C03]="C03 C07 C08 C01" [C04]="C04 C06 C14 C08" [C05]="C05 C08 C06" [C06]="C06 C01 C07 C08 C14 C03 C15" [C07]="C07 C08 C06 C03 C14" [C08]="C08 C04 C05 C06" [C10]="C10 C02 C14" [C13]="C13 C15" [C14]="C14 C04 C02 C10 C15" [C15]="C15 C13 C02 C10" [C16]="C16 C14 C04" [C17]="C17" [C20]="C20" )
+declare -A REL=( [C01]="C01 C02 C06 C10 C16" [C02]="C02 C01 C10 C14 C15" [C03]="C03 C07 C08 C01" [C04]="C04 C06 C14 C08" [C05]="C05 C08 C06" [C06]="C06 C01 C07 C08 C14 C03 C15" [C07]="C07 C08 C06 C03 C14" [C08]="C08 C04 C05 C06" [C10]="C10 C02 C14" [C13]="C13 C15" [C14]="C14 C04 C02 C10 C15" [C15]="C15 C13 C02 C10" [C16]="C16 C14 C04" [C17]="C17 C14" [C20]="C20" )
 R=${SWEEP_REPO:-/repo}
 cd $R || exit 2
 if [ -n "$(git status --porcelain --untracked-files=no)" ]; then echo "$R has local changes; refusing"; exit 2; fi
